@@ -11,6 +11,8 @@
 
 #include <cstring>
 #include <getopt.h>
+#include <cstdio>
+#include <cstdlib>
 
 #include <tinyformat.h>
 
@@ -63,6 +65,12 @@ struct cliargs {
             c = getopt_long(argc, argv, opt.c_str(), long_opts, &option_index);
             if (c == -1) {
                 break;
+            }
+            if (c == '?' || c == ':') {
+                // getopt has already said what is wrong (unknown option, missing value); going on would silently drop the argument,
+                // e.g. a negative number meant as a stack item
+                fprintf(stderr, "(put -- in front of arguments that start with a dash and are not options)\n");
+                exit(1);
             }
             if (optarg) {
                 m[c] = optarg;
